@@ -31,6 +31,13 @@ def gen_cases(tier, seed):
             fam = FAMS[k % len(FAMS)]
             cases.append(_case(rng, fam, [seed, k], dict(row)))
             k += 1
+    # stored witness of the open finding KF-C06-FILTER-PENALTY-OVERFLOW (always exercised)
+    w = work.mk_case("FILE", [0], {"newton": "Globalized", "step_solver": "Extended", "linear": "GMRES", "control": "Fixed",
+                                   "penalty": "LagrangianFilter", "active": "SmallestActiveSet", "scaling": "GradJac",
+                                   "iteration_limit": 400, "lamb_max": 20.624473932824444},
+                     gopts={"path": "witness/C06_filter_penalty_overflow.json"})
+    w.update(log="CRITICAL", display_interval=0.1, y0="none", fmt="coo")
+    cases.append(w)
     for _ in range(nrand):
         fam = str(rng.choice(FAMS, p=[0.2, 0.3, 0.0, 0.15, 0.15, 0.1, 0.1]))
         cases.append(_case(rng, fam, [seed, k], C.sample(rng)))
